@@ -28,6 +28,7 @@ THEOREMS = [
     "C12_packaging_independent_open", "C12_packaging_independent", "C12_packaging_independent_exists_partial",
     "C12_exists_dirs_refuted", "C12_real_cwd_irrelevant",
     "C12_frame", "C12_sequence_independent", "C12_failure_is_local", "C12_failure_is_metadata_failure",
+    "C12_rename_table_fresh",
 ]
 RULE = ("(a) generated setup()/setup.cfg declarations (canonical and re-spelled requirement lines, markers with "
         "and/or/groups, extras keys 'e', ':marker', 'e:marker', blank, quoted; str-vs-list shapes; ~15% malformed: bad "
@@ -40,9 +41,11 @@ RULE = ("(a) generated setup()/setup.cfg declarations (canonical and re-spelled 
         "compared with the PathMap model.  Non-trivial = a requirement with a composed marker was produced / a file was "
         "resolved inside an archive; distinct = distinct (declaration | program | project, query).  (e) frame condition: "
         "sequences of 2-4 generated projects (plain helper import | sys.path.pop(0) / filter / remove of the setup dir | "
-        "sys.path.insert of src | raise | sys.exit | chdir | PEP 517 ok | PEP 517 hook raising; shared helper-module names; "
+        "sys.path.insert of src | raise | sys.exit | chdir | os.rename of a data file then reading it | reading a data file while "
+        "shipping the old name | PEP 517 ok | PEP 517 hook raising; shared helper-module names; "
         "absolute and relative paths from one cwd) analysed in one process: after EVERY analysis os.getcwd(), sys.path, "
-        "sys.meta_path, project modules in sys.modules and every patched attribute are compared with the state before and "
+        "sys.meta_path, project modules in sys.modules, every patched attribute and any rename table kept on the Extractor "
+        "classes are compared with the state before and "
         "with the FrameC12 model, every result with the project's own declaration.")
 TRUSTED_BASE = [
     "T1 harness/tr_c12.py: separators/format strings of parse_req_with_marker and setup(), the './' and back-slash rules of to_relative, the packaging dispatch of extract_metadata -> gen/HarvestC12Consts.v",
@@ -58,7 +61,7 @@ ASSUMPTIONS = [
     "os.rename (Extractor.renames) is not part of the modelled idiom family; empty directories are not modelled",
     "the egg_info / wheel-build fall-backs are observed as 'fallback requested' (stubbed in T2 except for a small sample)",
 ]
-LEVEL_TEXT = ("19 theorems over Gallina models of the setup()/setup.cfg harvester, of the three extractors' path resolution "
+LEVEL_TEXT = ("20 theorems over Gallina models of the setup()/setup.cfg harvester, of the three extractors' path resolution "
               "and of the bracket around one analysis: harvest = declared meaning for EVERY declaration inside a decidable guard "
               "(canonical heads, own markers that re-parse to themselves, key names without quotes; `or` markers and the keys "
               "'extra', ':marker', 'extra:marker' all inside), re-parsing 'A and B' is the flat concatenation and '(A)' a group for "
@@ -66,7 +69,9 @@ LEVEL_TEXT = ("19 theorems over Gallina models of the setup()/setup.cfg harveste
               "resolves every plainly spelled path (relative, './', absolute below the virtual cwd, after any chdir) to the same "
               "member in directory/.tar.gz/.zip for ALL projects and never consults the real file system / real cwd; setup.cfg-only "
               "projects find their setup.cfg in all packagings; every analysis gives the process state back and every failure is a "
-              "metadata failure of that project, hence any sequence gives each project the result it gets alone; three _refuted "
+              "metadata failure of that project, the rename table (os.rename) an analysis starts with is empty (per-extractor state, "
+              "T1 checks it is assigned in Extractor.__init__ and not at class level), hence any sequence gives each project the "
+              "result it gets alone; three _refuted "
               "witnesses remain ('..' spellings, directory members missing from a tar, pyproject-only projects in archives - the last "
               "a known finding).  That real setup.py programs of the idiom family stay inside these models is TESTED (T2: generated "
               "programs x 3 packagings x 3 cwds x orders and sequences), not proved.")
@@ -1487,6 +1492,17 @@ def _resolve_attr(name: str) -> Any:
     return ("<absent>",)
 
 
+def class_level_renames() -> List[Any]:
+    """a rename table that outlives the extractor it was filled through: state on the Extractor CLASSES"""
+    import req_compile.metadata.extractor as X
+    out = []
+    for c in (X.Extractor, X.NonExtractor, X.TarExtractor, X.ZipExtractor):
+        t = c.__dict__.get("renames")
+        if isinstance(t, dict):
+            out += [[str(k), str(v)] for k, v in t.items()]
+    return sorted(out)
+
+
 class Frame:
     """the process-global state the bracket of extract_metadata must give back"""
 
@@ -1499,6 +1515,7 @@ class Frame:
         self.attrs = {n: (list(sys.argv) if n == "sys.argv" else _resolve_attr(n)) for n in names}
         self.root_level = logging.getLogger().level
         self.capture = logging._warnings_showwarning is not None
+        self.renames = class_level_renames()
 
     def delta(self) -> Dict[str, Any]:
         """what differs NOW from the snapshot, in the model's terms"""
@@ -1521,6 +1538,7 @@ class Frame:
                 pat.append(n)
         out["patched"] = sorted(pat)
         out["capture"] = logging._warnings_showwarning is not None
+        out["renames"] = class_level_renames()
         return out
 
     def restore(self) -> None:
@@ -1547,9 +1565,15 @@ class Frame:
                     break
         logging.getLogger().setLevel(self.root_level)
         logging.captureWarnings(self.capture)
+        import req_compile.metadata.extractor as X
+        for c in (X.Extractor, X.NonExtractor, X.TarExtractor, X.ZipExtractor):
+            if isinstance(c.__dict__.get("renames"), dict):
+                c.__dict__["renames"].clear()
 
 
-FRAME_KINDS = ["helper", "helper", "pop0", "pop0", "drop", "remove", "insert", "raise", "sysexit", "chdir", "pep517", "pep517_broken"]
+FRAME_KINDS = ["helper", "helper", "pop0", "pop0", "drop", "remove", "insert", "raise", "sysexit", "chdir", "pep517", "pep517_broken",
+               "rename", "rename", "readver", "readver"]
+TEMPLATE_VERSION = "0.0.0.dev0"
 PEP517_TMPL = ('[build-system]\nrequires = ["setuptools"]\nbuild-backend = "setuptools.build_meta"\n[project]\nname = "{name}"\n'
                '{ver}\ndependencies = ["own{i}>=1"]\n')
 
@@ -1571,6 +1595,18 @@ def frame_files(fp: Dict[str, Any]) -> List[Tuple[str, str]]:
     if kind == "pep517_broken":
         return [("pyproject.toml", PEP517_TMPL.format(name=fp["name"], ver='dynamic = ["version"]', i=i)
                  + '[tool.setuptools.dynamic]\nversion = {attr = "nosuchmodule%d.__version__"}\n' % i), (fp["name"] + "/__init__.py", "")]
+    if kind in ("rename", "readver"):
+        # the version lives in a data file; "rename" promotes VERSION.in to VERSION first (os.rename is emulated
+        # by the analyser: Extractor.add_rename), "readver" reads its own VERSION and also ships a VERSION.in template
+        pre = ["import os", "from setuptools import setup"]
+        if kind == "rename":
+            files = [("VERSION.in", fp["version"] + "\n")]
+            pre.append("os.rename('VERSION.in', 'VERSION')")
+        else:
+            files = [("VERSION", fp["version"] + "\n"), ("VERSION.in", TEMPLATE_VERSION + "\n")]
+        pre.append("v = open('VERSION').read().strip()")
+        pre.append("setup(name=%r, version=v, install_requires=['own%d>=1', 'tag-' + v.replace('.', '-')])" % (fp["name"], i))
+        return files + [("setup.py", "\n".join(pre) + "\n")]
     pre = ["import os, sys", "here = os.path.dirname(os.path.abspath(__file__))"]
     files = []
     if kind == "insert":
@@ -1605,7 +1641,13 @@ def frame_model_project(fp: Dict[str, Any], lead: str, arg: str, real_dir: str) 
     here = root if k == "D" else sd
     kind, N = fp["kind"], fp["helper"]
     if kind.startswith("pep517"):
-        return "{} {} {} {} - 0 0 R".format(fp["i"], "P1" if kind == "pep517_broken" else "P0", hx(arg), hx(real_dir))
+        return "{} {} {} {} - 0 0 0 R".format(fp["i"], "P1" if kind == "pep517_broken" else "P0", hx(arg), hx(real_dir))
+    rel = "" if k == "D" else lead + "/"         # Extractor.to_relative: names relative to the fake root
+    if kind in ("rename", "readver"):
+        data = [rel + f for f, _ in frame_files(fp) if f != "setup.py"]
+        ops = (["N {} {}".format(hx(rel + "VERSION.in"), hx(rel + "VERSION"))] if kind == "rename" else []) + ["F " + hx(rel + "VERSION")]
+        return "{} S {} {} {} 0 {} {} {} {} R".format(fp["i"], hx(arg), hx(real_dir), hx(sd), len(data), " ".join(hx(x) for x in data),
+                                                      len(ops), " ".join(ops))
     ops = []
     helpers = [(N, sd)]
     if kind == "insert":
@@ -1621,7 +1663,7 @@ def frame_model_project(fp: Dict[str, Any], lead: str, arg: str, real_dir: str) 
     elif kind == "chdir":
         ops.append("C " + hx("pkg"))
     ending = "X" if kind == "raise" else "E" if kind == "sysexit" else "R"
-    return "{} S {} {} {} {} {} {} {} {}".format(
+    return "{} S {} {} {} {} {} 0 {} {} {}".format(
         fp["i"], hx(arg), hx(real_dir), hx(sd), len(helpers), " ".join(hx(n) + " " + hx(d) for n, d in helpers),
         len(ops), " ".join(ops), ending)
 
@@ -1630,18 +1672,23 @@ def dec_frame_answer(ans: str) -> List[Dict[str, Any]]:
     out = []
     for part in ans.split(" || "):
         g, o, st = [x.strip().split() for x in part.split(" | ")]
+        nr = int(o[1])
+        reads = [(unhx(x.split(":")[0]), unhx(x.split(":")[1])) for x in o[2:2 + nr]]
+        o = [o[0]] + o[2 + nr:]
         n = int(o[1])
         seen = [(unhx(x.split(":")[0]), int(x.split(":")[1])) for x in o[2:2 + n]]
         failed, escaped = o[2 + n] == "1", o[3 + n] == "1"
         i = 0
         cwd = unhx(st[i]); i += 1
         capture = st[i] == "1"; i += 1
+        k = int(st[i]); renames = sorted([unhx(x.split(":")[0]), unhx(x.split(":")[1])] for x in st[i + 1:i + 1 + k]); i += 1 + k
         k = int(st[i]); path = [unhx(x) for x in st[i + 1:i + 1 + k]]; i += 1 + k
         k = int(st[i]); hooks = k; i += 1 + k
         k = int(st[i]); mods = sorted(unhx(x.split(":")[0]) for x in st[i + 1:i + 1 + k]); i += 1 + k
         k = int(st[i]); pat = sorted(unhx(x) for x in st[i + 1:i + 1 + k])
-        out.append({"guard": g[0] == "1", "resolved": unhx(o[0]), "seen": seen, "failed": failed, "escaped": escaped,
-                    "state": {"cwd": cwd, "path": path, "hooks": hooks, "modules": mods, "patched": pat, "capture": capture}})
+        out.append({"guard": g[0] == "1", "resolved": unhx(o[0]), "seen": seen, "reads": reads, "failed": failed, "escaped": escaped,
+                    "state": {"cwd": cwd, "path": path, "hooks": hooks, "modules": mods, "patched": pat, "capture": capture,
+                              "renames": renames}})
     return out
 
 
@@ -1652,6 +1699,27 @@ def owner_of(obs: Any) -> Optional[int]:
         m = re.match(r"own(\d+)", r)
         if m:
             return int(m.group(1))
+    return None
+
+
+def tag_of(obs: Any) -> Optional[str]:
+    reqs = obs[3] if obs[0] in ("OK", "OKSEM") else []
+    for r in reqs:
+        if r.startswith("tag-"):
+            return r.split(";")[0].strip()
+    return None
+
+
+def tag_for(content: str) -> str:
+    return "tag-" + content.strip().replace(".", "-")
+
+
+def served_content(fp: Dict[str, Any], served: str) -> Optional[str]:
+    """the content of the member [served] (relative to the fake root) of this project"""
+    base = served.rsplit("/", 1)[-1]
+    for f, c in frame_files(fp):
+        if f == base:
+            return c
     return None
 
 
@@ -1678,14 +1746,15 @@ def run_frame_sequence(enc440, MM, S, MetadataError, ws: Path, seq: List[Dict[st
                 before = Frame(names)
                 obs = observe_extract(enc440, MM, MetadataError, fp["_arg"], semantic=real_egg_info)
                 d = before.delta()
-                same = {"cwd": before.cwd, "path": before.path, "hooks": 0, "modules": [], "patched": [], "capture": before.capture}
+                same = {"cwd": before.cwd, "path": before.path, "hooks": 0, "modules": [], "patched": [], "capture": before.capture,
+                        "renames": before.renames}
                 changed = {k: v for k, v in d.items() if v != same[k]}
                 if "path" in changed:
                     changed["path"] = {"added": [x for x in d["path"] if x not in before.path],
                                        "removed": [x for x in before.path if x not in d["path"]]}
                 out.append({"obs": obs, "changed": changed, "cwd_before": before.cwd, "path_before": before.path,
                             "capture_before": before.capture,
-                            "state": {"cwd": d["cwd"], "path": d["path"], "capture": d["capture"],
+                            "state": {"cwd": d["cwd"], "path": d["path"], "capture": d["capture"], "renames": d["renames"],
                                       "hooks": len([h for h in sys.meta_path if all(h is not m for m in start.meta)]),
                                       "modules": Frame.delta(start)["modules"], "patched": Frame.delta(start)["patched"]}})
     finally:
@@ -1705,6 +1774,11 @@ def gen_frame_sequence(rng, base_i: int) -> List[Dict[str, Any]]:
         seq[0] = gen_frame_project(rng, base_i, N, "pep517_broken")
         seq[1] = gen_frame_project(rng, base_i + 1, N, rng.choice(["helper", "pep517", "chdir"]))
         seq[1]["relative"] = True
+    elif r < 0.8:         # a project that renames a data file, then one that reads the new name while shipping the old one
+        seq[0] = gen_frame_project(rng, base_i, N, "rename")
+        seq[1] = gen_frame_project(rng, base_i + 1, N, "readver")
+        if rng.random() < 0.7:
+            seq[0]["packaging"] = seq[1]["packaging"] = "D"      # directories share the key "VERSION"
     return seq
 
 
@@ -1738,6 +1812,8 @@ def t2_frames(ctx: Ctx, enc440, MM, S, MetadataError) -> None:
             own = owner_of(st["obs"])
             if own is not None and own != fp["i"]:
                 ctx.mismatch("result-depends-on-history", case, {"served": own, "obs": st["obs"]}, {"own": fp["i"]})
+            if fp["kind"] in ("rename", "readver") and st["obs"][0] == "OK" and tag_of(st["obs"]) != tag_for(fp["version"]):
+                ctx.mismatch("result-depends-on-history", case, {"read": tag_of(st["obs"]), "obs": st["obs"]}, {"own": tag_for(fp["version"])})
             if diverged:
                 continue
             # (iii) correspondence with the model: the state after the analysis, and the outcome
@@ -1756,6 +1832,11 @@ def t2_frames(ctx: Ctx, enc440, MM, S, MetadataError) -> None:
                 want_obs = ("OK", [o for _, o in mo["seen"]][:1] or [fp["i"]])
             got = st["obs"]
             got_obs: Any = ("EXC",) if got[0] == "EXC" else ("MetadataError",) if got[0] == "MetadataError" else ("OK", [owner_of(got)])
+            if want_obs[0] == "OK" and mo["reads"]:
+                # which member the model says was served decides the version the script saw
+                c = served_content(fp, mo["reads"][-1][1])
+                want_obs = want_obs + (tag_for(c) if c is not None else None,)
+                got_obs = got_obs + (tag_of(got),) if got_obs[0] == "OK" else got_obs
             if got_obs != want_obs:
                 ctx.mismatch("frame-outcome", case, got, want_obs)
                 diverged = True
@@ -1989,7 +2070,7 @@ def oracle_batch(ctx: Ctx, enc440, MM, S, MetadataError, batch: List[Dict[str, A
     return None
 
 
-OK_KINDS = ("helper", "pop0", "drop", "chdir", "sysexit", "insert", "pep517")
+OK_KINDS = ("helper", "pop0", "drop", "chdir", "sysexit", "insert", "pep517", "rename", "readver")
 
 
 def oracle_frame_sequence(ctx: Ctx, enc440, MM, S, MetadataError, seq: List[Dict[str, Any]], tag: str) -> Optional[str]:
@@ -2016,9 +2097,11 @@ def oracle_frame_sequence(ctx: Ctx, enc440, MM, S, MetadataError, seq: List[Dict
                 return who + ": reports the requirements of project own%s instead of its own (own%d)" % (own, fp["i"])
             if obs[1] != fp["name"] or obs[2] != enc440.ver_token(Version(fp["version"])):
                 return who + ": name/version %s %s differ from its declaration %s %s" % (obs[1], obs[2], fp["name"], fp["version"])
+            if fp["kind"] in ("rename", "readver") and tag_of(obs) != tag_for(fp["version"]):
+                return who + ": its setup.py read %s from VERSION although the project's VERSION says %s" % (tag_of(obs), fp["version"])
     for pos, (fp, st) in enumerate(zip(seq, steps)):
         if st["changed"]:
-            return "after analysing project #%d (%s) the process state is not what it was: %s" % (pos, fp["kind"], json.dumps(st["changed"])[:300])
+            return "STATE: after analysing project #%d (%s) the process state is not what it was: %s" % (pos, fp["kind"], json.dumps(st["changed"])[:300])
     return None
 
 
@@ -2026,31 +2109,34 @@ def search(ctx: Ctx) -> Optional[Dict[str, Any]]:
     enc440, MM, S, X, MetadataError = _imports()
     rng = ctx.rng
     os.chdir(common.VERIF)
-    # sequences first: the frame condition (orders, failures, cwd)
-    tried = 0
+    # sequences first: the frame condition (orders, failures, cwd, per-extractor state); a wrong RESULT is
+    # preferred as failing input over a state that was merely not given back
+    def strip_(seq):
+        return [{k: v for k, v in f.items() if not k.startswith("_")} for f in seq]
+    fallback = None
+    cands = []
     for mm in ctx.mismatches:
         c = mm.get("case")
-        if isinstance(c, dict) and "sequence" in c and tried < 8:
-            tried += 1
-            try:
-                why = oracle_frame_sequence(ctx, enc440, MM, S, MetadataError, c["sequence"], f"m{tried}")
-            except Exception:
-                import traceback
-                ctx.notes.append("sequence oracle crashed: " + traceback.format_exc()[-600:])
-                why = None
-            if why:
-                return {"kind": "sequence", "input": {"sequence": [{k: v for k, v in f.items() if not k.startswith("_")} for f in c["sequence"]]}, "why": why}
-    for b in range(ctx.n(30, 200)):
-        seq = gen_frame_sequence(rng, 100000 + 100 * b)
+        if isinstance(c, dict) and "sequence" in c and c["sequence"] not in [x for x in cands] and len(cands) < 12:
+            cands.append(c["sequence"])
+    cands.sort(key=lambda q: 0 if any(f["kind"] in ("rename", "pep517_broken", "pop0", "drop", "remove") for f in q[:1]) else 1)
+    fresh = [gen_frame_sequence(rng, 100000 + 100 * b) for b in range(ctx.n(30, 200))]
+    for n_, seq in enumerate(cands + fresh):
         try:
-            why = oracle_frame_sequence(ctx, enc440, MM, S, MetadataError, seq, f"f{b}")
+            why = oracle_frame_sequence(ctx, enc440, MM, S, MetadataError, seq, f"s{n_}")
         except Exception:
             import traceback
             if len(ctx.notes) < 10:
                 ctx.notes.append("sequence oracle crashed: " + traceback.format_exc()[-600:])
             why = None
-        if why:
-            return {"kind": "sequence", "input": {"sequence": [{k: v for k, v in f.items() if not k.startswith("_")} for f in seq]}, "why": why}
+        if why and not why.startswith("STATE:"):
+            return {"kind": "sequence", "input": {"sequence": strip_(seq)}, "why": why}
+        if why and fallback is None:
+            fallback = {"kind": "sequence", "input": {"sequence": strip_(seq)}, "why": why[7:]}
+        if fallback is not None and n_ >= len(cands) + 12:
+            break
+    if fallback is not None:
+        return fallback
     # analysis-order suspects first: the disagreeing batches, then fresh ones in all orders
     import itertools
     seen_b = 0
